@@ -284,7 +284,8 @@ class impl_guard:
         what = f"{type(e).__name__}: {e}"[:300] + ("" if out_of_domain else f" [at {where_raised(e)}]")
         inp = self.input if self.input is not None else {"stream": self.stream}
         self.res.count("errors", key)
-        self.res.extra.setdefault("streams_aborted", []).append(self.stream)
+        ab = self.res.extra.setdefault("streams_aborted", {})
+        ab[self.stream] = ab.get(self.stream, 0) + 1
         if out_of_domain:
             self.res.exact_break(key, input=inp, impl=what, model="every object the implementation produces on these inputs lies in the modelled domain")
         elif self.promise:
